@@ -43,7 +43,16 @@ def main():
         envd = dict(os.environ, PYTHONPATH="%s/src:%s/shims" % (wt, VERIF), PYTHONHASHSEED="0", PYTHONDONTWRITEBYTECODE="1")
         scratch = tempfile.mkdtemp(prefix="seedrun-", dir="/var/tmp")
         demo = os.path.join(d, "demo.py")
-        if os.path.exists(demo):
+        skip_demo = "--skip-demo" in sys.argv
+        if skip_demo and os.path.exists(os.path.join(d, "result.json")):
+            try:
+                old = json.load(open(os.path.join(d, "result.json")))
+                for key in ("demo_without_change", "demo_with_change"):
+                    if old.get(key):
+                        out[key] = old[key]
+            except Exception:
+                pass
+        if os.path.exists(demo) and not skip_demo:
             rc, o = sh(["timeout", "600", "/venv/bin/python", demo], cwd=scratch, env=envd)
             out["demo_without_change"] = "PASS" if rc == 0 else "FAIL(rc=%d) %s" % (rc, o[-300:])
         rc, o = sh(["git", "-C", wt, "apply", os.path.join(d, "patch.diff")])
@@ -52,7 +61,7 @@ def main():
             out["patch_error"] = o[-500:]
             print(json.dumps(out, indent=1))
             return 2
-        if os.path.exists(demo):
+        if os.path.exists(demo) and not skip_demo:
             rc, o = sh(["timeout", "600", "/venv/bin/python", demo], cwd=scratch, env=envd)
             out["demo_with_change"] = "PASS" if rc == 0 else "FAIL " + o.strip().split("\n")[-1][:300]
         if not skip_base:
